@@ -161,8 +161,9 @@ pub fn fingerprint_test() -> Result<(), String> {
     Ok(())
 }
 
-pub fn run(verbose: bool) -> i32 {
-    let tests: [(&str, fn() -> Result<(), String>); 3] = [("refat-vs-repo-image", repo_image_test), ("mkfs-vs-refat-and-crate", mkfs_test), ("fingerprint", fingerprint_test)];
+/// Machinery-only self-tests (no call into the crate under test): a failure here is exit 2, never a verdict.
+pub fn run_machinery(verbose: bool) -> i32 {
+    let tests: [(&str, fn() -> Result<(), String>); 2] = [("refat-vs-repo-image", repo_image_refat_test), ("mkfs-vs-refat", mkfs_refat_test)];
     for (n, t) in tests {
         match t() {
             Ok(()) => {
@@ -176,6 +177,70 @@ pub fn run(verbose: bool) -> i32 {
             }
         }
     }
-    let _ = FsInfo::Correct;
     0
+}
+
+/// Self-tests that run the crate under test on the reference images. When they fail the *crate* may be at fault
+/// (e.g. a change that mislocates single-FAT volumes), so they are reported, not treated as machinery failures;
+/// C15 turns them into violations.
+pub fn crate_on_reference_images() -> Vec<(String, String)> {
+    let mut out = Vec::new();
+    let tests: [(&str, fn() -> Result<(), String>); 3] = [("crate-reads-repo-image", repo_image_test), ("crate-reads-mkfs-images", mkfs_test), ("fingerprint", fingerprint_test)];
+    for (n, t) in tests {
+        match crate::util::catch_quiet(t) {
+            crate::util::Caught::Ok(Ok(())) => {}
+            crate::util::Caught::Ok(Err(e)) => out.push((n.to_string(), e)),
+            crate::util::Caught::Panic(m) => out.push((n.to_string(), format!("panic: {}", m))),
+        }
+    }
+    out
+}
+
+pub fn run(verbose: bool) -> i32 {
+    let rc = run_machinery(verbose);
+    if rc != 0 {
+        return rc;
+    }
+    let bad = crate_on_reference_images();
+    for (n, e) in &bad {
+        eprintln!("selftest {} (crate under test on reference images): {}", n, e);
+    }
+    if verbose && bad.is_empty() {
+        println!("selftest crate-on-reference-images: ok");
+    }
+    let _ = FsInfo::Correct;
+    if bad.is_empty() {
+        0
+    } else {
+        1
+    }
+}
+
+fn repo_image_refat_test() -> Result<(), String> {
+    let img = load_repo_image()?;
+    for (slot, fat32) in [(0usize, false), (1usize, true)] {
+        let v = refat::locate(&img, slot)?;
+        check(v.fat32 == fat32, format!("partition {} fat32={}", slot, v.fat32))?;
+        let fat = refat::read_fat(&img, &v, 0);
+        let t = refat::walk(&img, &v, &fat);
+        check(t.problems.is_empty(), format!("refat finds problems in the reference image: {:?}", t.problems))?;
+        for (p, sz) in [("/README.TXT", 258u32), ("/EMPTY.DAT", 0), ("/64MB.DAT", 67108864), ("/TEST/TEST.DAT", 3500)] {
+            let n = t.find(p).ok_or(format!("refat: {} missing on partition {}", p, slot))?;
+            check(n.ent.size == sz, format!("{} size {}", p, n.ent.size))?;
+        }
+    }
+    Ok(())
+}
+
+fn mkfs_refat_test() -> Result<(), String> {
+    for (name, g) in [("V16a", scen::g_v16a()), ("V16b", scen::g_v16b()), ("V32a", scen::g_v32a()), ("V32b", scen::g_v32b())] {
+        let img = scen::build(g.clone(), &scen::TreeOpts { free: Some(2), ..Default::default() });
+        let v = refat::locate(&img, 0).map_err(|e| format!("{}: refat cannot locate: {}", name, e))?;
+        check(v.fat32 == g.fat32 && v.clusters == g.clusters, format!("{}: geometry mismatch", name))?;
+        let fat = refat::read_fat(&img, &v, 0);
+        let t = refat::walk(&img, &v, &fat);
+        check(t.problems.is_empty(), format!("{}: refat problems in mkfs image: {:?}", name, t.problems))?;
+        check(refat::count_free(&fat, &v) == 2, format!("{}: free count", name))?;
+    }
+    Ok(())
 }
